@@ -7,12 +7,14 @@ import subprocess
 import vlib
 from vlib import InternalError
 
-TPS = ["tcp", "ux", "uxf", "btcp", "tls", "btls", "utls"]
-TCP_BASED = ["tcp", "btcp", "tls", "btls", "utls"]
-TLS_BASED = ["tls", "btls", "utls"]
+TPS = ["tcp", "ux", "uxf", "btcp", "tls", "btls", "utls", "utlst"]
+TCP_BASED = ["tcp", "btcp", "tls", "btls", "utls", "utlst"]
+TLS_BASED = ["tls", "btls", "utls", "utlst"]
 
 
 def scenarios(tp):
+    if tp == "utlst":           # a utls client of a plain tls server: the TLS leg of utls
+        return ["normal", "garbage2", "ctlflood"]
     s = ["normal", "refused", "idle", "ctlflood"]
     if tp in TCP_BASED:
         s.append("silent")
@@ -50,6 +52,15 @@ def model_check():
     jobs += [("silent", "FALSE", "no_timer"), ("accept", "TRUE", "hs_no_in"), ("garbage", "TRUE", "hs_no_in")]
     with concurrent.futures.ThreadPoolExecutor(max_workers=6) as ex:
         res = list(ex.map(lambda j: run(*j), jobs))
+    # spec/Utls.tla: the leg a utls connection runs over, the accept order, nothing lost
+    ru = vlib.tlc("Utls", "Utls.cfg", workers=2, timeout=300, heap="2g", metadir="%s/utls.%d" % (vlib.TLCDIR, os.getpid()))
+    if ru["error"]:
+        raise InternalError("TLC failed on Utls:\n%s" % ru["error"])
+    summary["Utls"] = dict(distinct=ru["distinct"], generated=ru["generated"], violated=ru["violated"])
+    states += ru["distinct"]
+    transitions += ru["generated"]
+    if ru["violated"]:
+        violated.append(("Utls", ru))
     for (p, t, b), r in zip(jobs, res):
         name = "XcmEst/%s/%s/%s" % (p, "tls" if t == "TRUE" else "plain", b)
         summary[name] = dict(distinct=r["distinct"], generated=r["generated"], violated=r["violated"])
